@@ -30,6 +30,7 @@ def all_props():
 def main():
     prop, d = sys.argv[1], sys.argv[2]
     keep = '--keep' in sys.argv
+    offset = int(sys.argv[sys.argv.index('--offset') + 1]) if '--offset' in sys.argv else 0
     results = []
     n = 1
     while os.path.exists(os.path.join(d, f'patch{n}.diff')):
@@ -85,14 +86,15 @@ def main():
             res['caught_by_target'] = prop in caught and caught[prop] and caught[prop][0][0] != 'ANALYSIS-ERROR'
             res['confirmed'] = bool(res.get('applies') and res.get('tests') and res.get('demo_fails_on_changed') and res.get('demo_passes_on_clean'))
             if keep and res['confirmed']:
-                dst = os.path.join(HERE, 'seeded', f'{prop}-{n}')
+                dst = os.path.join(HERE, 'seeded', f'{prop}-{n + offset}')
                 os.makedirs(dst, exist_ok=True)
                 shutil.copy(patch, os.path.join(dst, 'patch.diff'))
                 shutil.copy(demo, os.path.join(dst, 'demo.py'))
                 json.dump({'property': prop, 'summary': res['summary'], 'needs_to_manifest': res['needs'], 'files': res['files'], 'origin': 'independent sub-agent given only the property text',
                            'confirmed': {'cmd_tests': 'cd <scratch worktree> && PYTHONPATH=<wt>/src:<wt> /venv/bin/python -m pytest -q -p no:cacheprovider', 'tests': res['tests_tail'],
                                          'cmd_demo': 'PYTHONPATH=<wt>/src:<wt> /venv/bin/python demo.py', 'demo_on_changed_tree': 'fails: ' + res['demo_changed_tail'], 'demo_on_clean_tree': 'passes (exit 0)'},
-                           'static_checks': {'reported_by': {k: [list(x) for x in v] for k, v in caught.items()}, 'reported_by_target_property': bool(res['caught_by_target'])}},
+                           'round': 3 if offset else 1,
+                           'static_checks': {'first_evaluation': True, 'reported_by': {k: [list(x) for x in v] for k, v in caught.items()}, 'reported_by_target_property': bool(res['caught_by_target'])}},
                           open(os.path.join(dst, 'meta.json'), 'w'), indent=1)
         except Exception as e:  # noqa
             res['error'] = f'{type(e).__name__}: {e}'
